@@ -2635,4 +2635,89 @@ theorem userRoutes_mem_of_get : ∀ {l : List URoute} {n id : Nat} {r : URoute},
       have e : n + (k + 1) = n + 1 + k := by omega
       rw [e]; exact this
 
+
+
+/-! ### the host list of a redirect route follows the iteration order of `redirDomains` -/
+
+/-- every value list is ordered (`R` or equal) and made of names already seen -/
+def DbaInv (R : Name → Name → Prop) (seen : List Name) (m : DBA) : Prop :=
+  ∀ ad ∈ m, ad.2.Pairwise (fun x y => R x y ∨ x = y) ∧ ∀ x ∈ ad.2, x ∈ seen
+
+theorem DbaInv.append {R : Name → Name → Prop} {seen : List Name} {a : Addr} {d : Name}
+    (hd : d ∈ seen) (hR : ∀ x ∈ seen, R x d ∨ x = d) :
+    ∀ {m : DBA}, DbaInv R seen m → DbaInv R seen (assocAppend m a d)
+  | [], _ => by
+    intro ad had
+    simp only [assocAppend, List.mem_singleton] at had
+    subst had
+    exact ⟨by simp, by simpa using hd⟩
+  | (k, vs) :: rest, h => by
+    unfold assocAppend
+    split
+    · intro ad had
+      rcases List.mem_cons.mp had with rfl | had
+      · have hv := h (k, vs) (by simp)
+        refine ⟨?_, ?_⟩
+        · rw [List.pairwise_append]
+          refine ⟨hv.1, by simp, ?_⟩
+          intro x hx y hy
+          simp only [List.mem_singleton] at hy
+          subst hy
+          exact hR x (hv.2 x hx)
+        · intro x hx
+          rcases List.mem_append.mp hx with hx | hx
+          · exact hv.2 x hx
+          · simp only [List.mem_singleton] at hx; subst hx; exact hd
+      · exact h ad (List.mem_cons_of_mem _ had)
+    · intro ad had
+      rcases List.mem_cons.mp had with rfl | had
+      · exact h _ (by simp)
+      · exact DbaInv.append hd hR (m := rest) (fun ad' h' => h ad' (List.mem_cons_of_mem _ h')) ad had
+
+theorem DbaInv.inner {R : Name → Name → Prop} {seen : List Name} {d : Name}
+    (hd : d ∈ seen) (hR : ∀ x ∈ seen, R x d ∨ x = d) :
+    ∀ (as : List Addr) {m : DBA}, DbaInv R seen m → DbaInv R seen (as.foldl (fun m a => assocAppend m a d) m)
+  | [], _, h => h
+  | _ :: as, _, h => by
+    simp only [List.foldl_cons]
+    exact DbaInv.inner hd hR as (DbaInv.append hd hR h)
+
+theorem DbaInv.outer {R : Name → Name → Prop} :
+    ∀ (l : RD) (seen : List Name) (m : DBA), (l.map (·.1)).Pairwise R → (∀ x ∈ seen, ∀ k ∈ l.map (·.1), R x k) →
+      DbaInv R seen m → DbaInv R (seen ++ l.map (·.1)) (l.foldl dbaStep m)
+  | [], seen, m, _, _, h => by simpa using h
+  | (d, as) :: l, seen, m, hp, hs, h => by
+    simp only [List.map_cons, List.pairwise_cons] at hp
+    simp only [List.foldl_cons, List.map_cons]
+    have hmono : DbaInv R (seen ++ [d]) m := fun ad had =>
+      ⟨(h ad had).1, fun x hx => List.mem_append.mpr (Or.inl ((h ad had).2 x hx))⟩
+    have hR : ∀ x ∈ seen ++ [d], R x d ∨ x = d := by
+      intro x hx
+      rcases List.mem_append.mp hx with hx | hx
+      · exact Or.inl (hs x hx d (by simp))
+      · simp only [List.mem_singleton] at hx; exact Or.inr hx
+    have hstep : DbaInv R (seen ++ [d]) (dbaStep m (d, as)) := by
+      unfold dbaStep
+      exact DbaInv.inner (by simp) hR as hmono
+    have := DbaInv.outer l (seen ++ [d]) _ hp.2 (by
+      intro x hx k hk
+      rcases List.mem_append.mp hx with hx | hx
+      · exact hs x hx k (by simp [hk])
+      · simp only [List.mem_singleton] at hx; subst hx; exact hp.1 k hk) hstep
+    simpa [List.append_assoc] using this
+
+/-- **the host list of every redirect route is in the order `redirDomains` is ranged in**: if
+    the keys come out `R`-sorted (as `slices.Sorted(maps.Keys(redirDomains))` does, byte-wise),
+    every `domainsByAddr` value — the `MatchHost(domains)` of a redirect route — is `R`-sorted
+    too (equal neighbours only if a listener address is repeated).  The redirect matcher is
+    never provisioned: above MatchHost's large-list threshold its lookup is a binary search that
+    RELIES on exactly this order. -/
+theorem redirect_hosts_follow_iteration_order (R : Name → Name → Prop) (π : Orders) (rd : RD)
+    (h : ((pull π.dom rd).map (·.1)).Pairwise R) :
+    ∀ ad ∈ domainsByAddr π rd, ad.2.Pairwise (fun x y => R x y ∨ x = y) := by
+  intro ad had
+  unfold domainsByAddr at had
+  have := DbaInv.outer (R := R) (pull π.dom rd) [] [] h (by simp) (fun _ h' => by simp at h')
+  exact (this ad had).1
+
 end CaddyModel.C11
